@@ -97,12 +97,24 @@ impl<'a> Printer<'a> {
                 // comment needs to be preceded by ws only if previous token is regular? No: '%' is a delimiter, it ends a token.
                 self.comment();
             }
-            _ => {
+            231..=244 => {
                 self.ws_byte();
                 self.comment();
                 if self.t.choose(2) == 1 {
                     self.ws_byte();
                 }
+            }
+            _ => {
+                // several comments in a row, with or without white-space (blank lines, indentation) between them
+                let n = 2 + self.t.choose(2);
+                for _ in 0..n {
+                    self.comment();
+                    let k = self.t.choose(3);
+                    for _ in 0..k {
+                        self.ws_byte();
+                    }
+                }
+                self.t.mark("consecutive-comments");
             }
         }
     }
